@@ -569,11 +569,11 @@ Qed.
 
 (* below 10^21, away from exact decimal ties and from -0, otto's toFixed is ES5's, for every
    double and every digit count (the RangeError test included) *)
-Theorem toFixed_partial : forall bits f big neg m e,
+Theorem toFixed_partial : forall bits f neg m e,
   decode bits = DFin neg m e -> le_pow10 21 m e = false -> (m = 0 -> neg = false) ->
-  decimal_tie m e f = false -> m_to_fixed big bits f = to_fixed bits f.
+  decimal_tie m e f = false -> m_to_fixed bits f = to_fixed bits f.
 Proof.
-  intros bits f big neg m e Hd Hsmall Hz Ht. unfold m_to_fixed, to_fixed.
+  intros bits f neg m e Hd Hsmall Hz Ht. unfold m_to_fixed, to_fixed.
   rewrite orb_comm. destruct ((f <? 0) || (20 <? f)); [reflexivity|].
   rewrite Hd, Hsmall. cbn [andb]. unfold go_format_f. f_equal.
   destruct (Z.eqb_spec m 0) as [->|Hm].
@@ -639,3 +639,15 @@ Proof.
   intros m e s p Hv H. assert (Hm : 0 < m) by (destruct Hv as [[? ?] _]; lia).
   apply cand_closest; [assumption|]. unfold shortest in H. eapply shortest_from_cand; eassumption.
 Qed.
+
+(* ---------- parseInt below 2^63: otto's int64 path (with -0 made explicitly) is sign * the Number value ---------- *)
+Theorem parse_int_value_exact : forall neg base ds, radix_value base ds < 2 ^ 63 ->
+  m_parse_int_value neg base ds = signed_bits neg (round_int (radix_value base ds)).
+Proof.
+  intros neg base ds H. unfold m_parse_int_value.
+  destruct (Z.ltb_spec (radix_value base ds) (2 ^ 63)); [reflexivity | lia].
+Qed.
+
+(* otto's radix coercion int32(int64(math.Mod(x, 2^32))) is ToInt32 *)
+Theorem to_int32_agrees : forall bits, m_to_int32 bits = to_int32 bits.
+Proof. reflexivity. Qed.
